@@ -21,8 +21,7 @@ def r_is_single(ck: Checker) -> None:
     it = ck.interp(func)
     stm, rdp = func.params()[1], func.params()[2]
     rets = [r for r in returns_of(func) if r.value is not None and not is_const(r.value, None)]
-    ck.need(len(rets) == 1, "is_single has one successful return")
-    ret = rets[0]
+    ck.need(len(rets) >= 1, "is_single has a successful return")
     a_in = self_attr_for_param(ck, CLS, "input_predicates")
     a_out = self_attr_for_param(ck, CLS, "output_predicates")
     hp = f"Predicate({stm}.head.atom.symbol.name, len({stm}.head.atom.symbol.arguments))"
@@ -44,13 +43,15 @@ def r_is_single(ck: Checker) -> None:
         ("aggregate has exactly one `=` bound", f"len(AggAnalytics(collect_ast({stm}, 'BodyAggregate')[0]).equal_variable_bound) == 1", ""),
         ("... and no other bound", f"not AggAnalytics(collect_ast({stm}, 'BodyAggregate')[0]).bounds", "a second bound is a test that would be lost"),
     ]
-    for sig, cond, why in conds:
-        ok = it.holds(ret, cond)
-        ck.add(sig, ok, func, ret, f"successful return dominated by `{short(cond, 120)}`: {ok}", why or "side condition of unfolding a single definition")
-    v = unparse(ret.value)  # type: ignore[arg-type]
-    org = {st.origin.get(v, "") for st in it.states(ret)}
-    ok = org == {f"enumerate({args})[*][0]"} and it.holds(ret, f"v == Variable(LOC, AggAnalytics(collect_ast({stm}, 'BodyAggregate')[0]).equal_variable_bound[0])")
-    ck.add("returned position holds the aggregate's result variable", ok, func, ret, f"index from {sorted(org)}, guarded by equality with the `=` bound variable: {ok}", "G2: the value that is unfolded must be the aggregate value")
+    # every way of answering "single" (an added fast path included) has to satisfy all side conditions
+    for ret in rets:
+        for sig, cond, why in conds:
+            ok = it.holds(ret, cond)
+            ck.add(sig, ok, func, ret, f"successful return dominated by `{short(cond, 120)}`: {ok}", why or "side condition of unfolding a single definition")
+        v = unparse(ret.value)  # type: ignore[arg-type]
+        org = {st.origin.get(v, "") for st in it.states(ret)}
+        ok = org == {f"enumerate({args})[*][0]"} and it.holds(ret, f"v == Variable(LOC, AggAnalytics(collect_ast({stm}, 'BodyAggregate')[0]).equal_variable_bound[0])")
+        ck.add("returned position holds the aggregate's result variable", ok, func, ret, f"index from {sorted(org)}, guarded by equality with the `=` bound variable: {ok}", "G2: the value that is unfolded must be the aggregate value")
 
 
 def r_rule_dependency(ck: Checker) -> None:
@@ -341,7 +342,30 @@ def r_transform_args(ck: Checker) -> None:
            "each transform_args call keeps its own map from helper variables to fresh names: a variable shared between the helper's body and the aggregate element gets two names if they are renamed apart, and the join is lost")
 
 
+def r_fresh_dependency(ck: Checker) -> None:
+    """the dependency index that decides 'single definition, single use' describes the program that is being scanned
+    (every unfolding changes who uses what: the index of the previous round is about statements that no longer exist)"""
+    n = 0
+    for func in ck.prg.funcs.values():
+        if not func.qualname.startswith(f"ngo.{CLS}.") or isinstance(func.node, ast.Lambda):
+            continue
+        calls = resolved_calls(ck.prg, func, f"ngo.{CLS}.is_single")
+        if not calls:
+            continue
+        it = ck.interp(func)
+        for c in calls:
+            n += 1
+            loop = enclosing_loop(func, c)
+            scanned = unparse(loop.iter) if loop is not None else None
+            got = it.texts(c, c.args[1]) if len(c.args) >= 2 else set()
+            ok = scanned is not None and scanned in func.params() and got == {f"RuleDependency({scanned})"}
+            ck.add(f"{func.name}: is_single consults the dependencies of the program it scans", ok, func, c, f"scans `{scanned}`, dependencies are {sorted(got)}",
+                   "after the first unfolding the old index still returns the pre-rewrite user statement: no statement of the current program equals it, the helper's rule is removed and the rewritten user refers to an atom nobody defines")
+    ck.need(n >= 2, f"is_single call sites found ({n})")
+
+
 RULES = [
+    Rule("C15.fresh-dependency", P, r_fresh_dependency),
     Rule("C15.A.is-single", P, r_is_single),
     Rule("C15.uses", P, r_rule_dependency, extra={**{p_: ("every defining",) for p_ in ("C12", "C13", "C09", "C06", "C02")}, "C07": ("the single user is a rule or an objective",)}),
     Rule("C15.TABLE.good", PG, r_good_table),
